@@ -279,7 +279,9 @@ Proof.
     destruct (is_fin_acked t2); [cbn [fst snd]; auto|].
     destruct r; cbn [fst snd]; auto.
   - (* TimeWait *)
-    clear Hest. cbn [fst snd]. split; [|reflexivity].
+    clear Hest. destruct (c_fin (h_ctl h)); cbv zeta; cbn [fst snd];
+      [|split; [apply trel_intro; exact Hv | reflexivity]].
+    split; [|reflexivity].
     rewrite (wadd_swap (h_seq h) dP 1).
     change (hb_wnd (hb_ack (hb (G g t) (wadd (snd_nxt t) dO)) (wadd (wadd (h_seq h) 1) dP)) (rcv_wnd t))
       with (HO (hb_wnd (hb_ack (hb t (snd_nxt t)) (wadd (h_seq h) 1)) (rcv_wnd t))).
